@@ -31,6 +31,9 @@ DRV = os.path.join(VERIF, "lean", ".lake", "build", "bin", "mirdrv_c16")
 KF1 = "C16:gen-after-interp"
 KF2 = "C16:lref-cells-shared-by-engines"
 KF3 = "C16:lazy-bb-keeps-generator-ir"
+KF4 = "C16:opt-level-change-between-functions"
+KF5 = "C16:ssa-name-collides-with-user-reg"
+KF6 = "C16:global-call-clobbered-hard-reg-asserts"
 
 
 import resource
@@ -508,7 +511,7 @@ def pair_eval(plans):
     ii = results_by(res["interp"][1], "interp")
     if any(k in ii and ii[k] != v for k, v in solo.items()):
         return [], {"skipped": "solo-differs-from-interp"}
-    for name in ("A_B", "B_A"):
+    for name in [n for n in plans if n not in ("solo_A", "solo_B", "interp")]:
         p, r = res[name]
         if p:
             return [dict(p[0], order=name)], {}
@@ -565,7 +568,7 @@ if STRUCT is None or BEHAV is None or not proof_ok:
 
 # ----------------------------------------------------------------------------- corpus of past failures / known findings
 corpus_dir = os.path.join(VERIF, "corpus", "C16")
-kf_open = {KF1: False, KF2: False, KF3: False}
+kf_open = {KF1: False, KF2: False, KF3: False, KF4: False, KF5: False, KF6: False}
 n_corpus = 0
 for fn in sorted(os.listdir(corpus_dir)) if os.path.isdir(corpus_dir) else []:
     if not fn.endswith(".json"):
@@ -926,7 +929,7 @@ for fi, feat in enumerate(c16_gen.pair_features()):
 def pair_job(j):
     feat, vict, lv = j
     text, gens = c16_gen.pair_module(feat, vict)
-    plans = c16_gen.pair_plans(path_for_text(text), lv, gens)
+    plans = c16_gen.pair_plans(path_for_text(text), lv, gens, other_level=None if kf_open[KF4] else (lv + 2) % 4 if lv % 2 else (lv + 1 + 2 * (lv == 0)) % 4)
     probs, info = pair_eval(plans)
     return j, text, plans, probs, info
 
@@ -948,6 +951,30 @@ if not behav_failed[0]:
                               "impl_output": probs[0], "how_to_rerun": "./check C16 --replay <this file>"},
                              what=f"pair {j[0]} / {j[1]} -O{j[2]} generated in order {order}: {probs[0]['kind']} {str(probs[0])[:300]}")
 bstats["order_pairs"] = pr
+
+# ----------------------------------------------------------------------------- behavioural: register names the generator could invent itself
+an = {"plans": 0}
+for r1, r2 in (("x", "x@1"), ("a@1", "a"), ("t1", "t1@2"), ("s@1", "s@1@"), ("x", "x%1")):
+    for lv in (0, 1, 2, 3):
+        if behav_failed[0] or (kf_open[KF5] and lv >= 2):
+            continue
+        pl = [f"OPT {lv}", f"APIMOD ma B {r1} {r2}", "LOADLINK interp", "SNAP s0", "INTERP 0 B 5", "INTERP 1 B 0", "GEN B",
+              "CALL 0 B 5", "CALL 1 B 0", "CHECKTEXT mid", "GEN B", "CALL 0 B 5", "CHECKTEXT end"]
+        rc, out, err = run_plan(pl, f"an{lv}")
+        probs, r = intrinsic_problems(rc, out, err)
+        if not probs:
+            ci, ii = results_by(r, "call"), results_by(r, "interp")
+            bad = [k for k in ci if k in ii and ii[k] != ci[k]]
+            if bad:
+                probs = [{"kind": "call-differs-from-interp", "call": bad[0], "call_result": ci[bad[0]], "interp": ii[bad[0]]}]
+        an["plans"] += 1
+        if probs:
+            behav_failed[0] = True
+            ck.violation({"stage": "tie", "theorem_or_correspondence": "behavioural: harness/c16_behav.c, API-built function with generator-like register names",
+                          "case": {"kind": "behav", "single": True, "files": {}, "plan": pl}, "problem": probs[0],
+                          "input": {"names": [r1, r2], "level": lv}, "how_to_rerun": "./check C16 --replay <this file>"},
+                         what=f"function with locals {r1}, {r2} at -O{lv}: {probs[0]['kind']} {str(probs[0].get('detail', probs[0]))[:200]}")
+bstats["api_reg_names"] = an
 for s in samples:
     ck.sample(s)
 dist["behav"] = bstats
@@ -976,7 +1003,7 @@ if BEHAV_DBG and not behav_failed[0]:
     bstats["debug_build_plans"] = nd
 
 # ----------------------------------------------------------------------------- evidence
-ck.cov["evaluations"] = struct_stats["functions"] + bstats["corpus_plans"] + bstats["gen_plans"] + bstats["open_module"]["plans"] + bstats["many_functions"]["plans"] + bstats["order_pairs"]["cases"]
+ck.cov["evaluations"] = struct_stats["functions"] + bstats["corpus_plans"] + bstats["gen_plans"] + bstats["open_module"]["plans"] + bstats["many_functions"]["plans"] + bstats["order_pairs"]["cases"] + bstats["api_reg_names"]["plans"]
 ck.cov["distinct_nontrivial"] = struct_stats["nontrivial"] + bstats["gen_plans"] + \
     (1 if bstats["corpus_regen"] else 0) * bstats["corpus_plans"]
 ck.cov["rule"] = ("structural: one evaluation = one function (mir-tests, `c2m -S` of sampled c-tests, generated modules) taken "
